@@ -11,38 +11,63 @@ CASE_TIMEOUT = {"quick": 30, "thorough": 120}
 MODES = ["Zero", "Away", "Up", "Down", "HalfEven", "HalfAway"]
 BASES = [2, 2, 3, 8, 10, 10, 16, 36]
 
-LEVEL_TEXT = ("Coq theorems: the six rounding decision tables regenerated from float/src/round.rs pick, for every integer part and "
-              "every non-zero fraction, exactly the neighbour the mode names (T_round), the specification meets the documented "
-              "contract (error < 1, <= 1/2 for nearest modes, side, ties), the as-is models of repr_round / mul / sqr / cubic / div "
-              "built on those tables satisfy it for all operands; the as-is model of addition/subtraction (float/src/add.rs: the far-apart "
-              "stand-in, the three alignment branches, the three re-alignment cases of repr_round_sum, the zero and equal-exponent "
-              "paths, the four FBig operator bodies) returns for ALL bases, modes, precisions, signs, exponent gaps and operands that fit "
-              "the precision the specification rounding of the exact sum at a digit position keeping p or p+1 digits (C03_add, C03_sub, "
-              "C03_add_operator_forms), which is the documented contract clause by clause (C03_rounded_sum_is_the_contract); the as-is "
-              "model of sqrt (float/src/root.rs) rounds the integer root of the exactly scaled radicand once, in the direction the mode "
-              "names, to exactly p digits, for every non-negative operand that fits (C03_sqrt, C03_sqrt_round_is_the_contract); every "
-              "implementation answer of add/sub/mul/div/sqrt/sqr/cubic/inv and of the FBig operators is decided by the extracted contract "
-              "checker against the exact rational / square-root result, and compared with the as-is models.")
-LEVEL_NOTE = ("Trusted: Coq kernel, translator (round_low_part bodies), extraction + FastZ.v, zarith, harness. The hand-written models of "
-              "add.rs / mul.rs / div.rs / repr.rs are tied to the code by the correspondence run (model fidelity is measured and must be "
-              "100%). The digit estimate digits_ub (f32 log2 bounds) is abstract: the addition theorems hold for every estimate that is "
-              "not below the true digit count. IBig arithmetic under the float layer is taken as Z (that is C01/C02's claim).")
-TECHNIQUE = "Coq proof (rounding tables regenerated from source, contract theorems) + extracted contract checker on a correspondence run"
+LEVEL_TEXT = ("Coq theorems, all for every base B >= 2, mode, precision p >= 1 and every operand that fits: the six rounding decision "
+              "tables regenerated from float/src/round.rs pick exactly the neighbour the mode names (T_round); the specification rounding "
+              "meets the documented contract (error < 1, <= 1/2 for nearest modes, side, ties). Round::round_fract is modelled WITH its f32 "
+              "log2 pre-filter: for every pair of coarse tests that answer only when the strict comparison holds it equals the exact "
+              "comparison (C03_round_fract_filtered), and the two f32 comparisons of the code are such a pair for every monotone rounding "
+              "of the last sum / product, all sound log2 bounds and every precision below 2^24 digits (C03_round_fract_f32: the conjecture "
+              "that the filter is unsound above ~16 700 bits is refuted - monotone rounding cannot flip the comparison). The as-is models of "
+              "repr_round / mul / sqr / cubic satisfy the contract; division: repr_div returns the exact quotient exactly when the scaled "
+              "remainder is zero, otherwise the specification rounding of the exact quotient at a digit position keeping p or p+1 digits "
+              "with a truthful AddOne/SubOne flag (C03_div_rounded), which is the documented contract clause by clause "
+              "(C03_rounded_quot_is_the_contract: error below one unit <= 1 ulp, half unit for nearest modes, side, flags, <= p+1 digits, a "
+              "representable quotient is never flagged inexact) and, over the reals, against the real quotient x of the operands: |r - x| < "
+              "ulp_p(x), <= ulp_p(x)/2 for nearest modes, side, flags, Exact iff r = x (C03_div_contract_R); Context::div (pre-shrinking test, any digit estimates), Context::inv, the "
+              "four ownership forms of FBig * and /, operands with different precisions (Context::max) and primitive / IBig operands "
+              "(FBig::from first) are proved equal to ctx_mul / repr_div at p = max(p1, p2) (C03_ctx_div_inv, C03_mul_div_operator_forms, "
+              "C03_primitive_operand_forms); addition/subtraction (far-apart stand-in, three alignment branches, three re-alignment cases, "
+              "zero and equal-exponent paths, four operator bodies) return the specification rounding of the exact sum keeping p or p+1 "
+              "digits (C03_add, C03_sub, C03_add_operator_forms, C03_rounded_sum_is_the_contract); sqrt rounds the integer root of the "
+              "exactly scaled radicand once to exactly p digits (C03_sqrt). The executable checker that judges every case is proved sound "
+              "for rational exact values: check_contract = true implies, over the reals, |r - x| < ulp_p(x) with ulp_p(x) = B^(e_x - p + 1) "
+              "and B^e_x <= |x| < B^(e_x + 1), <= ulp/2 for nearest modes, the prescribed side, truthful flags, Exact iff r = x, x not "
+              "representable in p digits when flagged inexact, at most p+1 digits (C03_check_contract_sound, C03_rat_exp, C03_cmp_kx, "
+              "C03_check_contract_magnitude). Every implementation answer of add/sub/mul/div/sqrt/sqr/cubic/inv, of the FBig operators in "
+              "every form and of Round::round_fract called directly (near-half low parts at 8 000 .. 400 000 bits) is decided by that "
+              "checker / the exact comparison and compared with the as-is models.")
+LEVEL_NOTE = ("Only compared, not proved: (1) the hand-written models are tied to the code by the correspondence run (model fidelity is "
+              "measured and must be 100%) and by the fragments regenerated on every run (rounding tables, add.rs / root.rs constants, the "
+              "two literals and the decision order of round_fract's closure, Context::div's pre-shrinking test, repr_div's shifts: "
+              "C03_*_source_constants); (2) that UBig::log2_bounds / Word::log2_bounds really are bounds and that IEEE f32 addition and "
+              "multiplication are monotone are hypotheses of C03_round_fract_f32 (the first is C12's claim), as is precision < 2^24; beyond "
+              "2^24 digits nothing is claimed; (3) the checker's soundness theorem covers rational exact values; for sqrt the verdict "
+              "of check_contract on XSqrt values is trusted (the sqrt model itself is proved: C03_sqrt); (4) the digit estimates "
+              "digits_ub / digits_lb are abstract: addition holds for every estimate not below the true digit count, Context::div for "
+              "every estimate whatsoever when the dividend fits; (5) IBig arithmetic under the float layer is taken as Z (C01/C02).")
+TECHNIQUE = "Coq proof (rounding tables and constants regenerated from source, contract theorems, proved-sound contract checker) + extracted checker on a correspondence run"
 RULE = ("cases = op x base {2,3,8,10,16,36} x six modes x precision {1..5, 7, 10, 17, 24, 53, 64, 100 (1000+ thorough)} x operand "
         "shapes: significand digit counts {1, 2, p-1, p}, exponent gaps {0, 1, p-d, p, p+1, p+2, just beyond / far beyond the "
         "precision, huge}, constructed ties and near-ties (half an ulp +- one unit of a far lower digit), cancellation to zero or one "
-        "digit, carries into a new digit, perfect squares +-1 for sqrt, divisors that are powers of the base's factors. "
+        "digit, carries into a new digit, perfect squares +-1 for sqrt, divisors that are powers of the base's factors; * and / with "
+        "operands of different precisions and with primitive / big-integer operands (incl. trailing zero digits, zero, beyond i64) in "
+        "every ownership form; Round::round_fract called directly in bases {2,3,5,7,8,10,16,36} with low parts equal to, next to and "
+        "within 1e-6 .. 5e-2 (in log2) of one half at precisions of 1..300 bits and 8 000 .. 60 000 bits (to 400 000 in the thorough "
+        "tier, clustered at 8192/16384/32768/65536 where the f32 spacing doubles). "
         "non-trivial = the exact result is not representable (rounding happened) or an alignment branch other than the trivial one ran; "
         "counted by the oracle (cls=inexact-*) over distinct case texts.")
-EXPLANATION = ("The verdict of every case is computed by Contract.check_contract (Coq, extracted): |r-x| < ulp_p(x), <= ulp/2 for "
-               "HalfEven/HalfAway, side for Zero/Away/Up/Down, Exact iff r = x, AddOne/SubOne truthful, x representable => exact, "
-               "at most p+1 digits. x is the exact rational (or square root) of the operands.")
+EXPLANATION = ("The verdict of every arithmetic case is computed by Contract.check_contract (Coq, extracted; proved sound for rational "
+               "values in ContractProof.v): |r-x| < ulp_p(x), <= ulp/2 for HalfEven/HalfAway, side for Zero/Away/Up/Down, Exact iff r = x, "
+               "AddOne/SubOne truthful, x representable => exact, at most p+1 digits. x is the exact rational (or square root) of the "
+               "operands. rfract cases: the answer must be the one the exact comparison gives (Model.round_fract).")
 TRUSTED_BASE = [
-    "Coq 8.16.1 kernel",
-    "tools/translate.py renders the six round_low_part bodies of float/src/round.rs faithfully",
+    "Coq 8.16.1 kernel; the four standard-library axioms of the classical reals (used only by the statements about f32 bounds and by the checker-soundness theorems)",
+    "tools/translate.py renders the six round_low_part bodies of float/src/round.rs and the listed constants / conditions of add.rs, root.rs, round.rs, div.rs faithfully",
     "extraction: ExtrOcamlBasic + ExtrOcamlZBigInt + coq/extract/FastZ.v directives; zarith 1.12; oracle/driver_c03.ml computes the exact result of the operands as a fraction",
     "harness/src/bin/c03.rs and hlib (values moved through raw words, Repr::new, Context::new)",
     "IBig arithmetic below the float layer behaves as Z (C01, C02, C09, C12 sqrt_rem)",
+    "UBig::log2_bounds and Word::log2_bounds enclose log2 (C12) and f32 + and * round monotonically: hypotheses of C03_round_fract_f32, additionally sampled by the rfract cases",
+    "check_contract on square-root exact values (XSqrt) has no soundness theorem",
 ]
 ASSUMPTIONS = [
     "operands are finite and fit the context precision (digits <= p), as the property states",
